@@ -168,15 +168,15 @@ theorem addIt_next {α : Type} (toAurel : String → String) (var : List String)
 
 /-! ### all iterations -/
 
-theorem readCheckpoints_good {α : Type} (toAurel : String → String) (files : List (CFile α)) (var : List String)
+theorem readCheckpointsCore_good {α : Type} (toAurel : String → String) (files : List (CFile α)) (var : List String)
     (hn : var.Nodup) (hvar : var ≠ []) (hinj : ∀ a ∈ var, ∀ b ∈ var, toAurel a = toAurel b → a = b)
     (ht : ∀ v ∈ var, toAurel v ≠ "t") (its : List Nat) (rl : Nat) (cmax : CMax)
     (hc : findCmax files (sortedSet its) = some cmax) (A : Nat → String → Arr3 α) (tm : Nat → Nat)
     (hgood : ∀ iit ∈ sortedSet its, GoodIt cmax files iit rl var (A iit) (tm iit)) :
-    readCheckpoints toAurel files var its rl
+    readCheckpointsCore toAurel files var its rl
       = some ⟨sortedSet its, ("t", (sortedSet its).map fun i => Cell.t (tm i))
           :: var.map fun v => (toAurel v, (sortedSet its).map fun i => Cell.arr (fixij (A i v)))⟩ := by
-  unfold readCheckpoints
+  unfold readCheckpointsCore
   simp only [hc]
   generalize sortedSet its = s at hc hgood
   cases s with
@@ -208,5 +208,52 @@ theorem readCheckpoints_good {α : Type} (toAurel : String → String) (files : 
     simp only [List.map_cons, List.map_nil, List.singleton_append] at h
     rw [h]
     rfl
+
+/-! ### the request list is de-duplicated first -/
+
+theorem nodup_eraseDups_str : ∀ (l : List String), l.eraseDups.Nodup
+  | [] => by simp
+  | a :: as => by
+    rw [List.eraseDups_cons]
+    have : (as.filter fun b => !b == a).length < as.length + 1 := Nat.lt_succ_of_le (List.length_filter_le _ _)
+    refine List.nodup_cons.mpr ⟨?_, nodup_eraseDups_str _⟩
+    rw [List.mem_eraseDups]; simp
+termination_by l => l.length
+
+theorem goodFile_congr {α : Type} {cmax : CMax} {f : CFile α} {iit rl : Nat} {var var' : List String}
+    {sel : String → List (DSet α)} (hv : ∀ v, v ∈ var' → v ∈ var) (h : GoodFile cmax f iit rl var sel) :
+    GoodFile cmax f iit rl var' sel := by
+  cases h with
+  | single hc hne hnoc huniq => exact GoodFile.single hc hne hnoc (fun v h => huniq v (hv v h))
+  | chunked n hc hn hcs hmax huniq => exact GoodFile.chunked n hc hn hcs hmax (fun v h => huniq v (hv v h))
+  | perproc m k hc hk huniq => exact GoodFile.perproc m k hc hk (fun v h => huniq v (hv v h))
+
+theorem goodIt_congr {α : Type} {cmax : CMax} {files : List (CFile α)} {iit rl : Nat} {var var' : List String}
+    {A : String → Arr3 α} {tm : Nat} (hv : ∀ v, v ∈ var' → v ∈ var) (h : GoodIt cmax files iit rl var A tm) :
+    GoodIt cmax files iit rl var' A tm := by
+  obtain ⟨sel, nz, ny, nx, D, base, gx, gy, gz, hF, hgood, hgx, hgy, hgz, hz, hy, hx, hD, hphys⟩ := h
+  exact ⟨sel, nz, ny, nx, D, base, gx, gy, gz, hF, fun f hf => goodFile_congr hv (hgood f hf),
+    hgx, hgy, hgz, hz, hy, hx, hD, fun v h => hphys v (hv v h)⟩
+
+/-- **any request list, duplicates included** -/
+theorem readCheckpoints_good {α : Type} (toAurel : String → String) (files : List (CFile α)) (var : List String)
+    (hvar : var ≠ []) (hinj : ∀ a ∈ var, ∀ b ∈ var, toAurel a = toAurel b → a = b)
+    (ht : ∀ v ∈ var, toAurel v ≠ "t") (its : List Nat) (rl : Nat) (cmax : CMax)
+    (hc : findCmax files (sortedSet its) = some cmax) (A : Nat → String → Arr3 α) (tm : Nat → Nat)
+    (hgood : ∀ iit ∈ sortedSet its, GoodIt cmax files iit rl var (A iit) (tm iit)) :
+    readCheckpoints toAurel files var its rl
+      = some ⟨sortedSet its, ("t", (sortedSet its).map fun i => Cell.t (tm i))
+          :: var.eraseDups.map fun v => (toAurel v, (sortedSet its).map fun i => Cell.arr (fixij (A i v)))⟩ := by
+  unfold readCheckpoints
+  have hm : ∀ v, v ∈ var.eraseDups → v ∈ var := fun v h => List.mem_eraseDups.mp h
+  apply readCheckpointsCore_good toAurel files var.eraseDups (nodup_eraseDups_str var)
+  · intro e
+    obtain ⟨v, hv⟩ := List.exists_mem_of_ne_nil var hvar
+    have : v ∈ var.eraseDups := List.mem_eraseDups.mpr hv
+    rw [e] at this; cases this
+  · exact fun a ha b hb => hinj a (hm a ha) b (hm b hb)
+  · exact fun v hv => ht v (hm v hv)
+  · exact hc
+  · exact fun iit hi => goodIt_congr hm (hgood iit hi)
 
 end AurelVerif.CheckpointLemmas
